@@ -64,4 +64,68 @@ theorem R_sliceLB (chs : List (Node α)) (items : List (α × Bool)) (n : Nat)
   · intro _ c cp h; simp [sliceLB] at h
   · intro h; cases h
 
+/-- the child made by `Refer(l)` of a node with `l ≤ len` holds the first `l` readable bytes -/
+theorem Node.refer_child (nd : Node α) (l : Nat) :
+    (nd.refer l).1.readable = nd.readable.take l ∧ (nd.refer l).1.off = 0 ∧ (nd.refer l).1.pend = [] := by
+  simp [Node.refer, Node.next, Node.readable]
+
+theorem sliceLoop_spec (ns : List (Node α)) (n : Nat) (hn : 0 < n)
+    (hlen : n ≤ (absL ns).length) (hfl : ∀ x ∈ (absL ns).take n, x.2 = true)
+    (hoff : ∀ nd ∈ ns, nd.off ≤ nd.buf.length) :
+    ∃ chs ns' k, sliceLoop ns n = some (chs, ns', k) ∧
+      chs.flatMap Node.readable = ((absL ns).take n).map (·.1) ∧
+      (∀ ch ∈ chs, ch.off = 0 ∧ ch.pend = []) ∧
+      absL (ns'.drop k) = (absL ns).drop n ∧ AdvL ns ns' ∧ ∃ nd, ns[k]? = some nd ∧ 0 < nd.len := by
+  induction ns generalizing n with
+  | nil => simp at hlen; omega
+  | cons nd rest ih =>
+    unfold sliceLoop
+    have hoff' : ∀ x ∈ rest, x.off ≤ x.buf.length := fun x hx => hoff x (List.mem_cons_of_mem _ hx)
+    have hnd := hoff nd (List.mem_cons_self ..)
+    by_cases hge : nd.len ≥ n
+    · simp only [hge, if_true]
+      obtain ⟨hadv, ha, hk, hb⟩ := single_spec nd (({ nd with exposed := true } : Node α).refer n).2 rest n hge hn hoff
+        rfl rfl rfl rfl rfl rfl
+      refine ⟨_, _, 0, rfl, ?_, ?_, ha, hadv, hk⟩
+      · rw [hb]; simp [Node.refer, Node.next, Node.readable]
+      · intro ch hch
+        simp only [List.mem_singleton] at hch; subst hch; exact ⟨rfl, rfl⟩
+    · simp only [hge, if_false]
+      have hlt : nd.len < n := by omega
+      obtain ⟨t1, t2, t3, t4⟩ := stream_tail nd rest n hlt hlen hfl
+      obtain ⟨chs, ns', k, e, hb, hc, ha, hadv, x, hx, hx0⟩ := ih (n - nd.len) (by omega) t1 t2 hoff'
+      rw [e]; simp only []
+      by_cases hpos : nd.len > 0
+      · simp only [hpos, if_true]
+        refine ⟨_, _, _, rfl, ?_, ?_, ?_, AdvL.cons ?_ hadv, x, by simpa using hx, hx0⟩
+        · rw [t4, ← hb]
+          simp only [List.flatMap_cons, Node.refer, Node.next, Node.readable, Node.len, List.drop_zero]
+          rw [List.take_of_length_le (by simp)]
+        · intro ch hch
+          simp only [List.mem_cons] at hch
+          rcases hch with rfl | hch
+          · exact ⟨rfl, rfl⟩
+          · exact hc ch hch
+        · simp only [List.drop_succ_cons]
+          rw [ha, t3]
+        · exact ⟨rfl, rfl, rfl, rfl, rfl, by simp [Node.refer, Node.next],
+            by simp [Node.len, Node.refer, Node.next]; omega⟩
+      · simp only [hpos, if_false]
+        refine ⟨_, _, _, rfl, ?_, hc, ?_, AdvL.cons (Adv.rfl' hnd) hadv, x, by simpa using hx, hx0⟩
+        · have h0 : nd.readable = [] := by
+            apply List.eq_nil_of_length_eq_zero; rw [Node.readable_length]; omega
+          rw [t4, ← hb, h0]; rfl
+        · simp only [List.drop_succ_cons]
+          rw [ha, t3]
+
+/-- `Release()` keeps the refinement relation (no `DecidableEq` needed) -/
+theorem R.release {b : LB α} {q : Q α} (hR : R b q) (hd : q.dead = false) :
+    ∃ b', b.release = some (b', .unit) ∧ R b' q := by
+  have hsh := hR.shape hd
+  obtain ⟨r', e, h1, h2, h3⟩ := release_eq b hsh
+  refine ⟨_, e, ?_, hR.len, hR.mlen, fun _ => hsh.drop r' h2, ?_, hR.flags⟩
+  · show absL ((b.nodes.drop r').drop 0) = q.items
+    rw [List.drop_zero, h3, hR.abs]
+  · intro _ c cp hc; cases hc
+
 end Netpoll.Buf
